@@ -44,6 +44,9 @@ def main():
     elif args and args[0] == "--round3":
         base, offset = "/tmp/seed3", 6
         args = args[1:]
+    elif args and args[0] == "--round4":
+        base, offset = "/tmp/seed4", 9
+        args = args[1:]
     init = initial_results(args)
     kept = 0
     for cand in sorted(glob.glob(base + "_C*/cand*")):
